@@ -351,6 +351,14 @@ def build_and_audit(ctx, spec):
                 ctx.obligation('theorem ' + thm, not bad, 'theorem',
                                'axioms: [%s]%s' % (', '.join(axs), ('; statement: ' + stmts[thm]) if thm in stmts else ''))
                 ctx.theorems[thm] = dict(axioms=axs, statement=stmts.get(thm, ''))
+        # thorough tier: independent re-check of the compiled proof modules
+        if ok and ctx.tier == 'thorough':
+            try:
+                p = subprocess.run(['lake', 'env', 'leanchecker'] + list(spec['props']), cwd=LEAN, stdout=subprocess.PIPE,
+                                   stderr=subprocess.STDOUT, timeout=3000, universal_newlines=True)
+                ctx.obligation('leanchecker ' + ' '.join(spec['props']), p.returncode == 0, 'audit', tail(p.stdout))
+            except subprocess.TimeoutExpired:
+                raise Infra('leanchecker timed out')
     return drv_ok
 
 
